@@ -1,6 +1,7 @@
 package harness
 
 import (
+	"io"
 	"net/http"
 	"net/url"
 
@@ -14,13 +15,17 @@ var nativeAllocs func(f func()) float64
 type allocState struct {
 	lookupState
 	hit    bool
-	writer *nullWriter
+	writer http.ResponseWriter
 	primes []*http.Request // concrete matching requests interleaved with the request under test
 }
 
 func SetupC16Alloc() any {
 	set := corpusSet(sym.Param("set"))
 	st := &allocState{writer: &nullWriter{h: http.Header{}}}
+	if sym.ParamOr("rich", 0) == 1 {
+		// a writer with the optional capabilities of net/http's (flush, read-from): still no allocation per request
+		st.writer = &capableNullWriter{nullWriter{h: http.Header{}}}
+	}
 	r, err := fox.New()
 	if err != nil {
 		panic(err)
@@ -173,4 +178,13 @@ func splitHostPortFails(hp string) bool {
 		return true
 	}
 	return false
+}
+
+// capableNullWriter is an allocation-free writer that also offers the optional interfaces the real server's does.
+type capableNullWriter struct{ nullWriter }
+
+func (w *capableNullWriter) FlushError() error { return nil }
+func (w *capableNullWriter) Flush()            {}
+func (w *capableNullWriter) ReadFrom(src io.Reader) (int64, error) {
+	return 0, nil
 }
